@@ -502,6 +502,64 @@ theorem readObj_corners {ls : List (Line τ α)} {gs : List (Group τ α)} {libs
     · exact hd g hg
     · simp only [List.mem_singleton] at hg; subst hg; exact ⟨⟨hc.hv, hc.hn, hc.ht, hc.hf⟩, hc.hm⟩
 
+theorem filterMap_bind_aux {β γ δ : Type} (f : β → Option γ) (g : γ → Option δ) : ∀ l : List β,
+    (∀ t ∈ l, (f t).isSome) → (l.filterMap f).map g = l.map (fun t => (f t).bind g)
+  | [], _ => rfl
+  | a :: l, h => by
+    have ha := h a (by simp)
+    cases hf : f a with
+    | none => simp [hf] at ha
+    | some x =>
+      simp [List.filterMap_cons, hf, filterMap_bind_aux f g l (fun t ht => h t (by simp [ht]))]
+
+theorem filterMap_length_aux {β γ : Type} (f : β → Option γ) : ∀ l : List β,
+    (l.filterMap f).length = l.length → ∀ t ∈ l, (f t).isSome
+  | [], _ => by intro t ht; cases ht
+  | a :: l, h => by
+    have hle : (l.filterMap f).length ≤ l.length := List.length_filterMap_le f l
+    cases hf : f a with
+    | none => simp [List.filterMap_cons, hf] at h; omega
+    | some x =>
+      simp only [List.filterMap_cons, hf, List.length_cons, Nat.add_right_cancel_iff] at h
+      intro t ht
+      rcases List.mem_cons.1 ht with rfl | ht
+      · simp [hf]
+      · exact filterMap_length_aux f l h t ht
+
+/-- **When a group keeps its normals.**  For every accepted input and every returned group: the normal
+    table is complete (`normals.length = verts.length`, the condition under which `toMesh` keeps it)
+    exactly when every corner token of the group carries a `vn` slot, and then normal `k` is the pool
+    entry the `k`-th token refers to — aligned with vertex `k`.  (Same for texture coordinates.) -/
+theorem readObj_normals_complete {ls : List (Line τ α)} {gs : List (Group τ α)} {libs : List String}
+    (h : readObj pc ls = .ok (gs, libs)) : ∀ g ∈ gs,
+    (g.normals.length = g.verts.length ↔ ∀ t ∈ g.toks, (nIdx pc t).isSome) ∧
+    (g.normals.length = g.verts.length →
+      g.normals.map some = g.toks.map (fun t => (nIdx pc t).bind fun i => (poolN ls)[i]?)) ∧
+    (g.uvs.length = g.verts.length ↔ ∀ t ∈ g.toks, (tIdx pc t).isSome) ∧
+    (g.uvs.length = g.verts.length →
+      g.uvs.map some = g.toks.map (fun t => (tIdx pc t).bind fun i => (poolT ls)[i]?)) := by
+  intro g hg
+  have hi := readObj_corners pc h g hg
+  have hvl : g.verts.length = g.toks.length := by simpa using congrArg List.length hi.hv
+  have hnl : g.normals.length = (g.toks.filterMap (nIdx pc)).length := by simpa using congrArg List.length hi.hn
+  have htl : g.uvs.length = (g.toks.filterMap (tIdx pc)).length := by simpa using congrArg List.length hi.ht
+  refine ⟨⟨?_, ?_⟩, ?_, ⟨?_, ?_⟩, ?_⟩
+  · intro hl; exact filterMap_length_aux _ _ (by omega)
+  · intro hall
+    have h1 := congrArg List.length (filterMap_bind_aux (nIdx pc) (fun i => (poolN ls)[i]?) g.toks hall)
+    rw [List.length_map, List.length_map] at h1
+    omega
+  · intro hl
+    rw [hi.hn, filterMap_bind_aux _ _ _ (filterMap_length_aux _ _ (by omega))]
+  · intro hl; exact filterMap_length_aux _ _ (by omega)
+  · intro hall
+    have h1 := congrArg List.length (filterMap_bind_aux (tIdx pc) (fun i => (poolT ls)[i]?) g.toks hall)
+    rw [List.length_map, List.length_map] at h1
+    omega
+  · intro hl
+    rw [hi.ht, filterMap_bind_aux _ _ _ (filterMap_length_aux _ _ (by omega))]
+
+
 end content
 
 /-! ### the writer on what the reader returns -/
